@@ -1,10 +1,166 @@
-/- Line-protocol handlers for C04 (placeholder until the property is built). -/
+/- Line-protocol handlers for C04: criteria model + specification, flag arithmetic of later steps. -/
 import PandoraModel.Model.Basic
+import PandoraModel.Model.Criteria
+import PandoraModel.Model.FlagSteps
 
 namespace Pandora.Driver.C04
 open Lean (Json)
+open Pandora Pandora.Criteria Pandora.FlagSteps
 
-def handle (op : String) (_j : Json) : Except String Json :=
-  throw s!"unknown op {op}"
+/-! ### decoding -/
+
+def arr2 {α} (f : Json → Except String α) (j : Json) : Except String (Array (Array α)) := do
+  let g ← gridOfJson f j
+  return (g.map List.toArray).toArray
+
+def look2 {α} (a : Array (Array α)) (d : α) (r c : Nat) : α := (a.getD r #[]).getD c d
+
+def clsOfInt (i : Int) : Cls := if i == 0 then .valid else if i == 1 then .nodata else .invalid
+
+/-- a mask grid of 0 (valid) / 1 (nodata) / 2 (invalid), or null when the image has no mask -/
+def maskOfJson (j : Json) : Except String (Bool × (Nat → Nat → Cls)) :=
+  match j with
+  | Json.null => .ok (false, fun _ _ => .valid)
+  | _ => do
+    let a ← arr2 intOfJson j
+    return (true, fun r c => clsOfInt (look2 a 0 r c))
+
+def cvInputOfJson (j : Json) : Except String CvInput := do
+  let rows ← field j "rows" >>= natOfJson
+  let cols ← field j "cols" >>= natOfJson
+  let off ← field j "off" >>= natOfJson
+  let col0 ← intOfJson (fieldD j "col0" (intToJson 0))
+  let dmin ← field j "dmin" >>= intOfJson
+  let dmax ← field j "dmax" >>= intOfJson
+  let subpix ← natOfJson (fieldD j "subpix" (natToJson 1))
+  let (hasL, mL) ← maskOfJson (fieldD j "mask_left" Json.null)
+  let (hasR, mR) ← maskOfJson (fieldD j "mask_right" Json.null)
+  let pmin ← match fieldD j "pix_min" Json.null with
+    | Json.null => pure (fun (_ _ : Nat) => dmin)
+    | g => do let a ← arr2 intOfJson g; pure (fun r c => look2 a dmin r c)
+  let pmax ← match fieldD j "pix_max" Json.null with
+    | Json.null => pure (fun (_ _ : Nat) => dmax)
+    | g => do let a ← arr2 intOfJson g; pure (fun r c => look2 a dmax r c)
+  if subpix = 0 then throw "subpix = 0"
+  return { rows, cols, off, col0, dmin, dmax, hasL, mL, hasR, mR, subpix, pixMin := pmin, pixMax := pmax }
+
+def tab2 {α} (rows cols : Nat) (f : Nat → Nat → α) : Grid α :=
+  (List.range rows).map fun r => (List.range cols).map fun c => f r c
+
+/-! ### handlers -/
+
+/-- model outputs: mask after `validity_mask`, mask after `cv_masked`, NaN pattern of the cost volume -/
+def criteria (j : Json) : Except String Json := do
+  let J ← cvInputOfJson j
+  let nd := nDisp J
+  let nan := tab2 J.rows J.cols fun r c => (List.range nd).map fun k => !computable J r c k
+  return mkObj [
+    ("stage1", gridToJson natToJson (tab2 J.rows J.cols (stage1 J.toInput))),
+    ("final", gridToJson natToJson (tab2 J.rows J.cols (modelMask J))),
+    ("nan", gridToJson (listToJson Json.bool) nan),
+    ("ndisp", natToJson nd)]
+
+/-- the specification evaluated on observed outputs: `mask` (grid), `nan_all` (grid of bool),
+    `disp` (grid of cells, optional), `invalid_disp` -/
+def specPre (j : Json) : Except String Json := do
+  let J ← cvInputOfJson j
+  let mask ← field j "mask" >>= arr2 natOfJson
+  let nanAll ← field j "nan_all" >>= arr2 boolOfJson
+  let disp ← match fieldD j "disp" Json.null with
+    | Json.null => pure none
+    | g => do let a ← arr2 valOfJson g; pure (some a)
+  let invalid ← valOfJson (fieldD j "invalid_disp" (Json.str "nan"))
+  let mut out : Array Json := #[]
+  for r in List.range J.rows do
+    for c in List.range J.cols do
+      let f := look2 mask 0 r c
+      let d := disp.map fun a => look2 a Val.nan r c
+      for cl in failingClauses J invalid r c f (look2 nanAll false r c) d do
+        out := out.push (Json.arr #[Json.str cl, natToJson r, natToJson c, natToJson f])
+  return Json.arr out
+
+/-- winner-takes-all + invalid value on an observed cost volume -/
+def toDispH (j : Json) : Except String Json := do
+  let cv ← field j "cv" >>= gridOfJson (listOfJson valOfJson)
+  let isMax ← field j "is_max" >>= boolOfJson
+  let dmin ← field j "dmin" >>= intOfJson
+  let subpix ← field j "subpix" >>= natOfJson
+  let invalid ← valOfJson (fieldD j "invalid_disp" (Json.str "nan"))
+  return gridToJson valToJson (cv.map fun row => row.map fun costs => toDisp isMax dmin subpix invalid costs)
+
+def addOpOfJson (j : Json) : Except String AddOp := do
+  let s ← strOfJson j
+  if s == "add" then pure .add else if s == "or" then pure .or else throw s!"bad op {s}"
+
+def opsOfJson (j : Json) : Except String Ops := do
+  return { refine := ← field j "refine" >>= addOpOfJson, cc := ← field j "cc" >>= addOpOfJson,
+           fill := ← field j "fill" >>= addOpOfJson, reg := ← field j "reg" >>= addOpOfJson }
+
+/-- one observed step on a whole mask: exact model for the kinds whose decisions depend on flags only,
+    membership in the model's outcome set for the others, and the specification clauses -/
+def stepH (j : Json) : Except String Json := do
+  let kind ← field j "kind" >>= strOfJson
+  let ops ← field j "ops" >>= opsOfJson
+  let off ← field j "off" >>= natOfJson
+  let before ← field j "before" >>= gridOfJson natOfJson
+  let after ← field j "after" >>= arr2 natOfJson
+  let some rep := stepOfKind kind | throw s!"unknown kind {kind}"
+  let rows := before.length
+  let cols := (before.headD []).length
+  let exact : Option (Grid Nat) := if kind == "filter" then some before else none
+  -- the interpolations: the decisions that depend on the flags only are fixed by the model
+  let allowed : Option (Array (Array (List Nat))) :=
+    if kind == "mc_cnn" then some ((mcCnnAllowed ops off before).map List.toArray).toArray
+    else if kind == "sgm" then some ((sgmAllowed ops before).map List.toArray).toArray
+    else none
+  let mut notIn : Array Json := #[]
+  let mut failing : Array Json := #[]
+  for (row, r) in before.zipIdx do
+    for (f, c) in row.zipIdx do
+      let a := look2 after 0 r c
+      let border := decide (off > 0) && FlagSteps.inBorder rows cols off r c
+      let okSet := match allowed with
+        | some al => look2 al [] r c
+        | none => outcomes ops border kind f
+      if !okSet.contains a then
+        notIn := notIn.push (Json.arr #[natToJson r, natToJson c, natToJson f, natToJson a])
+      for cl in failingStepClauses border rep f a do
+        failing := failing.push (Json.arr #[Json.str cl, natToJson r, natToJson c, natToJson f, natToJson a])
+  return mkObj [
+    ("exact", match exact with | some g => gridToJson natToJson g | none => Json.null),
+    ("not_in_outcomes", Json.arr notIn),
+    ("failing", Json.arr failing)]
+
+def stepOfJson (j : Json) : Except String Step := do
+  match j with
+  | Json.arr #[Json.str "refine", b] => return .refine (← boolOfJson b)
+  | Json.arr #[Json.str "filter"] => return .filter
+  | Json.arr #[Json.str "filter_intervals", b] => return .filterIntervals (← boolOfJson b)
+  | Json.arr #[Json.str "cross_check", Json.str d] =>
+    if d == "consistent" then return .crossCheck .consistent
+    else if d == "mismatch" then return .crossCheck .mismatch
+    else if d == "occlusion" then return .crossCheck .occlusion
+    else throw s!"bad cc decision {d}"
+  | Json.arr #[Json.str "mc_cnn", b, c] => return .interpMcCnn (← boolOfJson b) (← boolOfJson c)
+  | Json.arr #[Json.str "sgm", a, b, c] => return .interpSgm (← boolOfJson a) (← boolOfJson b) (← boolOfJson c)
+  | _ => throw s!"bad step {j.compress}"
+
+/-- a per-pixel run (used to replay the counterexamples of Properties/C04.lean) -/
+def runH (j : Json) : Except String Json := do
+  let ops ← field j "ops" >>= opsOfJson
+  let border ← boolOfJson (fieldD j "border" (Json.bool false))
+  let steps ← field j "steps" >>= listOfJson stepOfJson
+  let f ← field j "flag" >>= natOfJson
+  let trace := steps.foldl (fun (acc : List Nat) s => acc ++ [stepFlag ops border s (acc.getLastD f)]) [f]
+  return mkObj [("trace", listToJson natToJson trace), ("run_ok", Json.bool (runOK ops border steps f))]
+
+def handle (op : String) (j : Json) : Except String Json :=
+  match op with
+  | "C04.criteria" => criteria j
+  | "C04.spec_pre" => specPre j
+  | "C04.to_disp" => toDispH j
+  | "C04.step" => stepH j
+  | "C04.run" => runH j
+  | _ => throw s!"unknown op {op}"
 
 end Pandora.Driver.C04
